@@ -35,7 +35,7 @@ CONTAINER_SRCS = [
     "set()", "{1}", "{1, 2}", "{'a'}", "{1, 'a'}", "{None}",
     "frozenset()", "frozenset({1})", "frozenset({'a'})", "frozenset({1, 'a'})",
     "{}", "{'a': 1}", "{'a': 1, 'b': 'x'}", "{'a': 'x'}", "{'b': 'x'}", "{1: 'a'}", "{'a': 1, 'c': A()}",
-    "{'a': 1, 'c': C()}", "{'a': 1, 'zz': 0}", "{'a': True}", "{'k': [1]}", "{'a': None}", "{1: 1}", "{'a': 1.5}",
+    "{'a': 1, 'c': C()}", "{'a': 1, 'zz': 0}", "{'a': True}", "{'a': 1, 'b': None}", "{'a': None, 'b': 'x'}", "{'k': [1]}", "{'k': 1}", "{'k': 1.5}", "{'a': None}", "{1: 1}", "{'a': 1.5}",
     "range(3)", "bytearray(b'a')", "len", "ident", "(lambda: 0)",
 ]
 
